@@ -29,6 +29,8 @@ def run(chk):
     a64common.rule_mem_index(chk, A)
     a64common.rule_shift_class(chk, A)
     a64common.rule_sibling_checks(chk, A)
+    from lib import a64vec
+    a64vec.run(chk, A)
     from lib import relocrules
     relocrules.bound_unbound(chk, [emit])
     from lib import opkind
